@@ -24,7 +24,7 @@ from vt import tt
 from vt.cmp import arr
 from vt.gen.basic import fl, logu
 from vt.oracle import conjugate as cj
-from vt.runner import Res, Sub
+from vt.runner import Res, Sub, guarded, raises_kind
 
 PROPERTY = "C14"
 LEVEL = "exploration"
@@ -466,6 +466,12 @@ def _scalar(v):
     return a.reshape(-1)
 
 
+def _fail_once(res, kind, detail, **tags):
+    """one failure per (kind, request sample dimension) and case"""
+    if not any(f.kind == kind and f.tags.get("req_sdim") == tags.get("req_sdim") for f in res.fails):
+        res.fail(kind, detail, **tags)
+
+
 def body(c):
     torch.manual_seed(int(c["torch_seed"]))
     m = Model(c)
@@ -497,8 +503,12 @@ def body(c):
         if req == 1 and c.get("override"):
             ss = _sshape(c["override"])
             kw = {"samples": torch.Size(ss)}
+        rt = {"req_sdim": len(ss)}  # tags of this request (the override may change the sample shape)
         with torch.no_grad():
-            v = obj(**kw)
+            v, exc = guarded(obj, **kw)
+        if exc is not None:
+            res.fail(raises_kind(exc), dict(request=req, samples=ss, message=str(exc)[:300]), **rt)
+            return res
         val = _scalar(v)
         draws = []
         for s in sids:
@@ -510,16 +520,16 @@ def body(c):
         # ---- the draws left in the parameters have the requested sample shape
         bad = [list(u.shape) for u, blk in zip(draws, m.blocks) if tuple(u.shape) != tuple(ss) + (blk.dim(),)]
         if bad:
-            res.fail("draw_shape", dict(where, shapes=bad))
+            res.fail("draw_shape", dict(where, shapes=bad), **rt)
             return res
         if not all(np.all(np.isfinite(u)) for u in draws) or not np.all(np.isfinite(val)):
-            res.fail("nonfinite", dict(where, value=val.tolist()))
+            res.fail("nonfinite", dict(where, value=val.tolist()), **rt)
             return res
         # ---- (c) freshness
         if tuple(ss) in prev:
             same = [float(np.mean(p == u)) for p, u in zip(prev[tuple(ss)], draws)]
             if any(f > 0 for f in same):
-                res.fail("stale_draws", dict(where, fraction_equal=same))
+                _fail_once(res, "stale_draws", dict(where, fraction_equal=same), **rt)
         prev[tuple(ss)] = draws
         # ---- (b) pairing: recompute from the draws with independent densities
         lp, lq = m.log_p(draws), m.log_q(draws)
@@ -530,7 +540,7 @@ def body(c):
         cands = cj.objective_candidates(obj_now, lp, lq, H)
         scale = max(1.0, 1e-3 * float(np.max(np.abs(lp))))
         if not np.all(np.isfinite(lp)) or not np.all(np.isfinite(lq)):
-            res.fail("nonfinite", dict(where, log_p=np.asarray(lp).tolist(), log_q=np.asarray(lq).tolist()))
+            res.fail("nonfinite", dict(where, log_p=np.asarray(lp).tolist(), log_q=np.asarray(lq).tolist()), **rt)
             return res
 
         def off(expected):
@@ -539,7 +549,7 @@ def body(c):
         outer = float(ss[0]) if two else 1.0
         if min(off(e) for e in cands) > TOL:
             t_outer = bool(two and ss[0] > 1 and min(off(outer * e) for e in cands) <= TOL)
-            res.fail("mismatch:draws", dict(where, value=val.tolist(), recomputed=cands, log_z=log_z), times_outer=t_outer)
+            _fail_once(res, "mismatch:draws", dict(where, value=val.tolist(), recomputed=cands, log_z=log_z), times_outer=t_outer, **rt)
         # ---- (a) exactness at the posterior
         if c["mode"] == "posterior":
             expected = log_z
@@ -548,13 +558,11 @@ def body(c):
                 expected = log_z + float(np.mean(lq)) + H
             if off(expected) > TOL:
                 t_outer = bool(two and ss[0] > 1 and off(outer * expected) <= TOL)
-                res.fail("mismatch:logz", dict(where, value=val.tolist(), expected=expected, log_z=log_z), times_outer=t_outer)
+                _fail_once(res, "mismatch:logz", dict(where, value=val.tolist(), expected=expected, log_z=log_z), times_outer=t_outer, **rt)
             # the posterior handed to q really is the posterior: log p - log q is flat
             flat = float(np.max(np.abs(lp - lq - log_z))) / max(abs(log_z), scale)
             if flat > TOL:
                 raise AssertionError("oracle: log p - log q not constant at the posterior (%g) for %r" % (flat, c))
-        if res.fails:
-            return res
     return res
 
 
